@@ -159,7 +159,7 @@ def run(ctx):
                                "nodata": 0.0, "fieldname": "default",
                                "max_accumulated_cells": int(rng.integers(1, 3))})
     ctx.info.setdefault("exhaustive_complete", True)
-    nrand = 10 if ctx.tier == "quick" else 100
+    nrand = 10 if ctx.tier == "quick" else 800
     for it in range(nrand):
         if ctx.out_of_time():
             break
